@@ -7,19 +7,14 @@ namespace MkEval
 open Py Mk Pep508
 
 /-- value of one item as the loop computes it -/
-def itemVal (ν : Atom → Res Bool) : M → Res Bool
-  | .atom a => ν a
-  | .list l => (evalLoop ν l [] []).map anyAll
-  | .bool _ => .error (.raw .assertionError)
+abbrev itemVal := @evalItem
 
 theorem evalLoop_item (ν : Atom → Res Bool) (m : M) (h : ∀ s, m ≠ .bool s) (rest : List M) (done cur) :
     evalLoop ν (m :: rest) done cur = (itemVal ν m) >>= fun b => evalLoop ν rest done (cur ++ [b]) := by
   cases m with
-  | atom a => simp [evalLoop, itemVal]
+  | atom a => simp [evalLoop]
   | bool s => exact absurd rfl (h s)
-  | list l =>
-    simp only [evalLoop, itemVal]
-    cases evalLoop ν l [] [] <;> rfl
+  | list l => simp [evalLoop]
 
 def evalO (ν : Atom → Res Bool) : Option Formula → Res Bool
   | none => .ok false
@@ -103,11 +98,11 @@ mutual
 /-- an item's value is the value of the formula it denotes -/
 theorem itemVal_eq (ν : Atom → Res Bool) : (m : M) → (f : Formula) → fOfM m = some f → itemVal ν m = f.eval ν
   | .atom a, f, h => by
-    simp only [fOfM, Option.some.injEq] at h; subst h; rfl
+    simp only [fOfM, Option.some.injEq] at h; subst h; simp [evalItem, Formula.eval]
   | .bool _, f, h => by simp [fOfM] at h
   | .list l, f, h => by
     simp only [fOfM] at h
-    simpa [itemVal] using list_eq ν l f h
+    simpa [evalItem] using list_eq ν l f h
 /-- `_evaluate_markers` on a whole list -/
 theorem list_eq (ν : Atom → Res Bool) : (l : List M) → (f : Formula) → fOfL l = some f →
     (evalLoop ν l [] []).map anyAll = f.eval ν
